@@ -94,7 +94,7 @@ def program(spec, pname, tier, cap):
     assert!(calls() == c2, "parse_err_fn invoked by an enum that does not declare it");
 """ % {"N": N, "E": E, "P": plain.ty()}
     ncov = 3
-    if not [v for v in enabled(spec) if not v.default]:
+    if not [v for v in enabled(spec) if not v.default and any(len(sp.encode()) <= N for sp in spellings(spec, v))]:
         body = body.replace('    vcover!(o.is_some(), "accepted input");\n', "")
         ncov = 2
     api = """pub fn api_err_types() {
